@@ -26,7 +26,8 @@ CFG = dict(
          "shuffled mentions, -base / -diff_base lists with empty values, odd drop_frames, 8-source completion orders (deterministic) + random; header shapes (deterministic): sources in three / four time units "
          "in every order and by alias, equal units, around failing sources, as bases and across the 128 boundary; default sample type on the first / a "
          "later / no source, around failures and across the boundary; timed HTTP sources: 12 (-seconds, -timeout) x URL seconds= combinations with the "
-         "client's deadline observed, servers answering 0.3-1.5 s late under -timeout 1. distinct = sha256 of the input term; non-trivial = >= 2 sources "
+         "client's deadline observed, servers answering 0.3-1.5 s late under -timeout 1; HTTP sources whose names make stat fail with ENAMETOOLONG "
+         "(queries of 3.9k-20k characters) or ENOTDIR (a regular file `http:` / host:port in the cwd). distinct = sha256 of the input term; non-trivial = >= 2 sources "
          "with at least one failing and one succeeding",
     spec_what="status / merged profile (sample type, contributors in order, weight per key) / per-source error lines differ from what the C16 "
               "statement demands for these source lists and outcomes",
